@@ -353,6 +353,7 @@ pub fn udp_worker(args: &[String]) -> i32 {
     while Instant::now() < until {
         drain(&driver_socks, &driver_ports);
     }
+    log(json!({"t": now_us(), "who": "driver", "ev": "end-of-observation"}));
     let events = LOG.get().unwrap().lock().unwrap().clone();
     println!("{}", json!({"actor_ports": ports, "driver_ports": driver_ports, "salt": salt, "run": run, "events": events}));
     0
@@ -548,8 +549,14 @@ pub fn check_log(v: &Value) -> Result<BTreeMap<&'static str, u64>, (String, Valu
     // datagram of the whole run is, the handler's remaining commands were dropped.
     let mut missed_elsewhere = 0u64;
     let mut handlers_cut_short: Vec<Value> = Vec::new();
+    let observed_until = events.iter().filter(|e| e["ev"] == "end-of-observation").filter_map(|e| e["t"].as_u64()).max().unwrap_or(0);
     for e in &events {
         if e["who"] != "actor" {
+            continue;
+        }
+        // a handler that returned in the last 100 ms of the observation may simply not have had
+        // its datagrams picked up yet
+        if e["t_end"].as_u64().unwrap_or(u64::MAX).saturating_add(100_000) > observed_until {
             continue;
         }
         let mut failed_before = false;
